@@ -110,6 +110,25 @@ def directive_decode_task(ck, task):
         return
     N = generic_decoder_checks(ck, P, it, env, dec, fn, tag, H, crc)
     check_fields(ck, it, env, dec, fn, tag, fixed_fields(kind.name, H, large) + [("pdu_file_directive._directive_type", "bits", H * 8, 8)])
+    if kind.name == "NAK":
+        # segment requests come in (start, end) pairs of 2*w octets: an area that is not a whole number of pairs must be
+        # refused before the pair loop runs (inside the loop a half pair would surface as struct.error)
+        w2 = 16 if large else 8
+        from .terms import subterms
+        mods = set()
+        for r_ in it.raises:
+            if r_["kind"] == "explicit" and r_["func"].endswith("NakPdu.unpack"):
+                for f_ in r_["facts"][-2:]:
+                    for s_ in subterms(f_):
+                        if s_.k == "op" and s_.a[0] == "%" and s_.a[2].k == "const":
+                            mods.add(s_.a[2].a[0])
+        cons = f"a segment-request area that is not a multiple of {w2} octets (one start/end pair) is refused ({tag})"
+        if w2 in mods:
+            ck.proved("G-REFUSE", fn, cons, f"refusal on remaining % {w2} != 0")
+        elif mods:
+            ck.refuted("G-REFUSE", fn, cons, f"the size check uses modulus {sorted(mods)} instead of {w2}: an odd number of offset fields passes and the pair loop reads a short field (struct.error)")
+        else:
+            ck.unknown("G-REFUSE", fn, cons, "no modulus check found among the refusals")
     # the mandatory parameters lie before the end of the parameter area (declared length minus CRC trailer)
     need = H + 1 + min_params_len(kind.name, large) + (2 if crc else 0)
     st, m = D.prove(env.facts, binop(">=", N, C(need)))
